@@ -457,6 +457,20 @@ def check_c17(seed, tier, root=None):
                     fails.append(_f("C17", "C17.copy_independent", "mutating the original changed the copy", case, seed))
             except Exception as e:
                 fails.append(_f("C17", "C17.copy", f"copy scenario '{scenario}' raised {e!r}", case, seed))
+        # sources of any size: a foreign file with a short table is smaller than the 4096 bytes of an empty library-made file
+        try:
+            from harness.container_checks import make_file, OPAQUE_TYPES, comment_raw
+            for N in (1, 2, 4, 14, 20):
+                n += 1
+                small = os.path.join(d, f"small{N}.tdf")
+                make_file(small, N, [(OPAQUE_TYPES[0], 1, b"\x01\x02\x03" * N, comment_raw("opaque", rng))], rng)
+                dst = os.path.join(d, f"small{N}_copy.tdf")
+                case = dict(op="copy", scenario=f"foreign source with {N} table slots ({os.path.getsize(small)} bytes)")
+                Tdf(small).copy(dst)
+                if open(dst, "rb").read() != open(small, "rb").read():
+                    fails.append(_f("C17", "C17.copy_identical", f"copy of a {os.path.getsize(small)}-byte source with {N} table slots is not byte-identical ({os.path.getsize(dst)} bytes)", case, seed))
+        except Exception as e:
+            fails.append(_f("C17", "C17.copy", f"copy of a small foreign source raised {e!r}", dict(op="copy", scenario="small foreign source"), seed))
         # a source reached through a symbolic link: the copy is a file of its own all the same
         try:
             real_src = os.path.join(d, "real_src.tdf")
@@ -503,6 +517,46 @@ def check_c17(seed, tier, root=None):
                 fails.append(_f("C17", "C17.clobber", f"copy onto {what} raised {e!r} instead of FileExistsError", case, seed))
             if not os.path.exists(s3) or _sha(s3) != before:
                 fails.append(_f("C17", "C17.clobber", f"copy onto {what} changed the file", case, seed))
+        # relative targets are relative to the current directory (not to the source): bare names and names with a directory part
+        cwd0 = os.getcwd()
+        work = os.path.join(d, "elsewhere")
+        os.makedirs(os.path.join(work, "out"), exist_ok=True)
+        try:
+            os.chdir(work)
+            for op in ("copy", "new"):
+                for rel in ("bare.tdf", os.path.join("out", "deep.tdf")):
+                    for present in (False, True):
+                        n += 1
+                        case = dict(op=op, target=f"relative name {rel!r}, {'present' if present else 'absent'}, current directory is not the source's")
+                        target = os.path.join(work, rel)
+                        beside = os.path.join(d, os.path.basename(rel))       # where a 'next to the source' reading would put it
+                        for q in (target, beside):
+                            if os.path.exists(q):
+                                os.remove(q)
+                        if present:
+                            open(target, "wb").write(b"someone else's file")
+                        before = sorted(os.listdir(d))
+                        try:
+                            Tdf(src).copy(rel) if op == "copy" else Tdf.new(rel)
+                            raised = None
+                        except Exception as e:
+                            raised = e
+                        if present:
+                            if not isinstance(raised, FileExistsError):
+                                fails.append(_f("C17", "C17.clobber", f"{op} to an existing relative target {'raised ' + repr(raised) if raised else 'did not raise'}", case, seed))
+                            if not os.path.exists(target) or open(target, "rb").read() != b"someone else's file":
+                                fails.append(_f("C17", "C17.clobber", f"{op} to an existing relative target changed it", case, seed))
+                        else:
+                            if raised is not None:
+                                fails.append(_f("C17", "C17.create", f"{op} to an absent relative target raised {raised!r}", case, seed))
+                            elif not os.path.exists(target):
+                                fails.append(_f("C17", "C17.create", f"{op} to an absent relative target did not create the file at that path", case, seed))
+                            elif op == "copy" and open(target, "rb").read() != open(src, "rb").read():
+                                fails.append(_f("C17", "C17.copy_identical", "copy to a relative target is not byte-identical to the source", case, seed))
+                        if sorted(os.listdir(d)) != before:
+                            fails.append(_f("C17", "C17.frame", f"{op} to a relative target changed the source's directory: {sorted(set(os.listdir(d)) ^ set(before))}", case, seed))
+        finally:
+            os.chdir(cwd0)
         # opening
         n += 1
         try:
